@@ -60,7 +60,7 @@ def configs(tier):
                         if model == 'burgers' and fl != 'abstract':
                             c.update(explore=True, no_feasibility=True, n=3)
                         if not q:
-                            c.update(timeout_ms=300000, budget_s=3000)
+                            c.update(timeout_ms=200000, budget_s=1200)
                         out.append(c)
     # ---- units, component level (the operator is a composition of these homogeneous maps)
     for model in ('convection', 'burgers', 'shallowwater', 'euler1d'):
@@ -90,7 +90,7 @@ def configs(tier):
         for bc in (('per', 'per'), ('dirichlet', 'dirichlet')):
             c = {'level': 'operator', 'clause': 'units', 'model': 'convection', 'flux': None, 'num': num, 'bc': list(bc), 'n': 4}
             if num == 'muscl:abstract' or not q:
-                c.update(timeout_ms=120000, budget_s=280 if q else 3000)
+                c.update(timeout_ms=120000, budget_s=280 if q else 1200)
             out.append(c)
     # ---- the finite-difference Jacobian of the implicit family (its perturbation must scale with the state: no absolute scale)
     for model, fl in (('euler1d', 'centered'), ('shallowwater', 'centered'), ('convection', None)):
@@ -98,7 +98,7 @@ def configs(tier):
         if model == 'euler1d':
             if q:
                 continue          # 81 entries: thorough tier only
-            c.update(gamma='2', budget_s=3000)
+            c.update(gamma='2', budget_s=1800)
         out.append(c)
     # ---- driver level: solve() with save times on a problem and its rescaled / reflected twin
     for clause in ('reflection', 'units'):
@@ -116,7 +116,7 @@ def configs(tier):
                 c['feas_timeout_ms'] = 1500
                 if integ == 'gear' and clause == 'units':
                     c['timeout_ms'] = 8000 if q else 600000
-                    c['budget_s'] = 280 if q else 7000
+                    c['budget_s'] = 280 if q else 1800
             out.append(c)
     return out
 
